@@ -28,6 +28,8 @@ MANIFEST = dict(
 
 
 async def prog(mpc, ctx):
+    if ctx.get('set_t') is not None:
+        mpc.threshold = ctx['set_t']         # the program changes the threshold before start() (as demos/parallelsort.py does)
     await mpc.start()
     ctx['keys'] = dict(getattr(mpc, '_prss_keys', {}))
     ctx['started'] = True
@@ -57,6 +59,11 @@ def jobs(tier, seed):
         for refuse in ((False,) if tier == 'quick' else (False, True)):
             for k in range(16):
                 out.append(dict(m=m, t=t, refuse=refuse, policy='eager', bound=2, k=k, slices=16, seed=seed, chunks='full', chunk_only=True))
+    # threshold changed by the program (Runtime.threshold setter) after setup and before start()
+    for (m, t0, t1) in ((3, 1, 0), (3, 0, 1), (4, 1, 0), (5, 2, 1), (5, 1, 2)) + (() if tier == 'quick' else ((4, 0, 1), (5, 0, 2), (6, 2, 0), (7, 3, 1))):
+        for policy in ('eager', 'lazy'):
+            out.append(dict(m=m, t=t1, t0=t0, refuse=False, policy=policy, bound=(1 if m <= 4 else 0) if tier == 'quick' else 1, k=0, slices=1,
+                            seed=seed, chunks='full'))
     out.sort(key=lambda j: (-j['m'], -j['bound']))
     return out
 
@@ -99,18 +106,18 @@ def judge_keys(m, t, ctxs):
 def run_job(job):
     part = Part()
     m, t = job['m'], job['t']
-    world = World(m, t, False, seed=job['seed'])
+    world = World(m, job.get('t0', t), False, seed=job['seed'])
     world.refuse_mode = job['refuse']
     ctxs = []
 
     def setup(w):
         ctxs.clear()
         for p in range(m):
-            ctxs.append({})
+            ctxs.append({'set_t': t} if 't0' in job else {})
             w.spawn(p, prog, ctxs[p])
 
     sched_alts = not job.get('chunk_only')
-    cfg = f"m{m}t{t}/{'refuse' if job['refuse'] else 'block'}/{job['policy']}{'/chunks-only' if not sched_alts else ''}"
+    cfg = f"m{m}t{t}{'(set from %d)' % job['t0'] if 't0' in job else ''}/{'refuse' if job['refuse'] else 'block'}/{job['policy']}{'/chunks-only' if not sched_alts else ''}"
 
     def judge(w, x):
         part.case(key=(cfg, x.deviations), nontrivial=bool(x.deviations) or job['k'] == 0)
@@ -148,14 +155,14 @@ def replay(case):
     part = Part()
     job = case['job']
     m, t = job['m'], job['t']
-    world = World(m, t, False, seed=job['seed'])
+    world = World(m, job.get('t0', t), False, seed=job['seed'])
     world.refuse_mode = job['refuse']
     ctxs = []
 
     def setup(w):
         ctxs.clear()
         for p in range(m):
-            ctxs.append({})
+            ctxs.append({'set_t': t} if 't0' in job else {})
             w.spawn(p, prog, ctxs[p])
     x = run_execution(world, setup, [(i, a) for i, a in case['deviations']], job['policy'], job['chunks'],
                       sched_alts=not job.get('chunk_only'))
